@@ -50,3 +50,135 @@ contract(
     props=["C10"],
     doc="'no relink needed' is answered only if the file already is one of the configured link types to this cache object",
 )
+
+
+# =====================================================================================================
+# C05: checkout never destroys user data that is not recoverable from the cache
+# =====================================================================================================
+from pyvc.interp import extern  # noqa: E402
+from pyvc.types import TFn, TList, TRef, TSet  # noqa: E402
+from specs.heap import FileSystem  # noqa: E402
+from specs.records import Change  # noqa: E402
+
+Prompt = TOpt(TFn(TStr, TBool))
+Link = TRef("Link", fields={})
+
+
+def files(hv, fs):
+    return hv.get("FileSystem.files", fs)
+
+
+def removed(hv, fs):
+    return hv.get("FileSystem.removed", fs)
+
+
+def msg(path):
+    return lift("file/directory '") + path + "' is going to be removed. Are you sure you want to proceed?"
+
+
+def approved(c):
+    return And(c.prompt.is_some, c.prompt.val[msg(c.path)])
+
+
+contract("ext:FileSystem.exists", params=dict(self=FileSystem, path=TStr), returns=TBool,
+         ensures=lambda c: c.result == files(c.h, c.self).contains(c.path), assumed=True, doc="fs.exists(path)")
+contract("ext:FileSystem.iscopy", params=dict(self=FileSystem, path=TStr), returns=TBool, assumed=True, doc="fs.iscopy(path): stat only")
+
+
+@extern("ext:FileSystem.remove")
+def _fs_remove(engine, args, kwargs, node, self_expr):
+    """remove(path) and remove([paths]) share one name: dispatch on the argument"""
+    fs, target = args[0], args[1]
+    from pyvc.contracts import REG
+    from pyvc.types import SV
+
+    if isinstance(target, SV) and target.ty == TStr:
+        return engine.apply_contract(REG.get("ext:FileSystem.remove#one"), None, [fs, target], {}, node)
+    return engine.apply_contract(REG.get("ext:FileSystem.remove#many"), None, [fs, target], {}, node)
+
+
+contract(
+    "ext:FileSystem.remove#one",
+    params=dict(self=FileSystem, path=TStr),
+    raises={"FileNotFoundError": (lambda c: Not(files(c.h, c.self).contains(c.path)), lambda c: And(files(c.h, c.self) == files(c.h0, c.self), removed(c.h, c.self) == removed(c.h0, c.self)))},
+    modifies=lambda c: [("FileSystem.files", c.self), ("FileSystem.removed", c.self)],
+    ensures=lambda c: And(Not(files(c.h, c.self).contains(c.path)), files(c.h, c.self).subset(files(c.h0, c.self)),
+                          removed(c.h, c.self) == removed(c.h0, c.self).add(c.path)),
+    assumed=True,
+    doc="fs.remove(path): the path (with what is below it) is gone and logged as removed; nothing is created",
+)
+# the list form (used by gc) keeps its contract from contracts/gc.py under the '#many' name
+import contracts.gc as _gc  # noqa: E402,F401
+from pyvc.contracts import REG as _REG  # noqa: E402
+
+_REG.by_name["ext:FileSystem.remove#many"] = _REG.by_name.pop("ext:FileSystem.remove")
+_REG.by_name["ext:FileSystem.remove#many"].qualname = "ext:FileSystem.remove#many"
+
+
+def _remove_may_raise(c):
+    return And(Not(c.force), Not(c.in_cache), files(c.h, c.fs).contains(c.path), Not(approved(c)))
+
+
+contract(
+    f"{M}:_remove",
+    params=dict(path=TStr, fs=FileSystem, in_cache=TBool, force=TBool, prompt=Prompt),
+    raises={"PromptError": (_remove_may_raise, lambda c: And(files(c.h, c.fs) == files(c.h0, c.fs), removed(c.h, c.fs) == removed(c.h0, c.fs)))},
+    modifies=lambda c: [("FileSystem.files", c.fs), ("FileSystem.removed", c.fs)],
+    ensures=lambda c: And(
+        # whatever is taken away was consented to, recoverable from the cache, or was not there
+        Implies(And(files(c.h0, c.fs).contains(c.path), removed(c.h, c.fs) != removed(c.h0, c.fs)), Or(c.force, c.in_cache, approved(c))),
+        removed(c.h, c.fs).subset(removed(c.h0, c.fs).add(c.path)),
+        files(c.h, c.fs).subset(files(c.h0, c.fs)),
+    ),
+    props=["C05"],
+    doc="removal guard: not forced and not in cache -> prompt or PromptError, and then nothing is touched",
+)
+
+contract("ext:Link.__call__", params=dict(self=Link, cache=HashFileDB, from_path=TStr, to_fs=FileSystem, to_path=TStr),
+         raises={"CheckoutError": (None, lambda c: removed(c.h, c.to_fs) == removed(c.h0, c.to_fs))},
+         modifies=lambda c: [("FileSystem.files", c.to_fs)],
+         ensures=lambda c: files(c.h, c.to_fs) == files(c.h0, c.to_fs).add(c.to_path),
+         assumed=True, doc="Link(cache, from, fs, to): creates `to` (never removes anything)")
+contract("dvc_data.hashfile.db:HashFileDB.protect", params=dict(self=HashFileDB, path=TStr), assumed=True, doc="mode bits only")
+contract("dvc_data.hashfile.db.local:LocalHashFileDB.protect", params=dict(self=HashFileDB, path=TStr), assumed=True, verify=False, doc="mode bits only (os.chmod)")
+contract("dvc_data.hashfile.db:HashFileDB.unprotect", params=dict(self=HashFileDB, path=TStr), assumed=True, doc="base class: no-op")
+contract("dvc_data.hashfile.db.local:LocalHashFileDB.unprotect", params=dict(self=HashFileDB, path=TStr), assumed=True, verify=False,
+         doc="[to be verified] content-preserving: copy to a temporary sibling, remove, rename, chmod")
+
+
+def _cf_post(c):
+    fs = c.fs
+    consent = Or(c.force, c.change.old.cache_meta.is_some, approved(c))
+    return And(
+        # the workspace file is taken away only with consent or when the OLD object is recoverable from the cache
+        Implies(And(files(c.h0, fs).contains(c.path), removed(c.h, fs) != removed(c.h0, fs)), consent),
+        removed(c.h, fs).subset(removed(c.h0, fs).add(c.path)),
+    )
+
+
+contract(
+    f"{M}:_checkout_file",
+    params=dict(link=Link, path=TStr, fs=FileSystem, change=Change, cache=HashFileDB, force=TBool, relink=TBool, state=None, prompt=Prompt),
+    returns=TBool,
+    requires=lambda c: And(_types(c).length() >= 1, c.change.new.oid.is_some, c.change.new.oid.val.value.is_some,
+                           c.change.new.oid.val.value.val.length() > 0),
+    raises={"PromptError": (None, lambda c: removed(c.h, c.fs) == removed(c.h0, c.fs)), "CheckoutError": (None, lambda c: _cf_post(c))},
+    modifies=lambda c: [("FileSystem.files", c.fs), ("FileSystem.removed", c.fs)],
+    ensures=_cf_post,
+    props=["C05"],
+    doc="every overwrite goes through the guarded removal, with the cache status of the OLD object",
+)
+
+
+from pyvc.types import TReal  # noqa: E402
+
+contract(
+    "dvc_data.hashfile.utils:to_nanoseconds",
+    params=dict(ts=TReal),
+    returns=TInt,
+    ensures=lambda c: And(lift(c.result, TReal) - c.ts * 1000000000 <= lift(0.5, TReal), c.ts * 1000000000 - lift(c.result, TReal) <= lift(0.5, TReal)),
+    pure=True,
+    props=["C05", "C10"],
+    doc="the link token of a single file has nanosecond resolution: the integer nearest to ts * 10^9 "
+        "(two mtimes at least 1 ns apart never collapse); float arithmetic treated as exact",
+)
